@@ -18,7 +18,7 @@ from dataclasses import dataclass, field
 from typing import Optional
 
 from ..cfg import CFG, loop_body_nodes
-from ..core import AnalysisError, ClassInfo, FuncInfo, call_name, get_kwarg, norm, short, walk_local
+from ..core import AnalysisError, ClassInfo, FuncInfo, call_name, get_kwarg, norm, self_attr, short, walk_local
 from ..engine import Engine
 
 FITNESS_CTORS = {"ConstraintFitness", "DistanceAwareConstraintFitness"}
@@ -417,3 +417,88 @@ def owned_binding_rule(chk, eng: Engine, rule: str) -> None:
                                 "of the next one is resolved - wrong verdicts, and lazy and eager evaluation disagree", keyparts=f"binding-into-callers-dict|{k.name}.{m.name}|{name}")
     if n < 4:
         raise AnalysisError(f"only {n} binding writes found in the constraint classes")
+
+
+# ---------------------------------------------------------------- memoised verdicts read no re-bindable module state
+def rebound_module_state(eng: Engine) -> dict[tuple[str, str], str]:
+    """(module, name) of module-level variables that some function re-binds (`global X; X = ...` or `module.X = ...`) -> the writer."""
+    from ..core import ModuleInfo, attr_chain
+    rebound: dict[tuple[str, str], str] = {}
+    for f in eng.ix.all_functions:
+        globs = {n for st in walk_local(f.node) if isinstance(st, ast.Global) for n in st.names}
+        mod = eng.ix.modules[f.module]
+        for n in walk_local(f.node):
+            if isinstance(n, (ast.Assign, ast.AugAssign, ast.AnnAssign)):
+                for t in (n.targets if isinstance(n, ast.Assign) else [n.target]):
+                    if isinstance(t, ast.Name) and t.id in globs:
+                        rebound[(f.module, t.id)] = f.fq
+                    elif isinstance(t, ast.Attribute):
+                        ch = attr_chain(t)
+                        if ch and len(ch) >= 2:
+                            r = eng.ix.resolve_dotted(mod, t.value)
+                            if isinstance(r, ModuleInfo):
+                                rebound[(r.name, t.attr)] = f.fq
+    return rebound
+
+
+def memo_purity_rule(chk, eng: Engine, rule: str) -> None:
+    """The verdict memo of a constraint is keyed by (root, tree, scope, local variables).  Whatever else fitness() reads must not change during
+    a run.  Module-level variables that some function re-binds (the repetition cap `nodes.MAX_REPETITIONS`, raised by the adaptive tuner and
+    reset per protocol message) are such state: a fitness that reads one - directly or through a property of an object it holds - answers from
+    the memo with the verdict computed under the old value."""
+    from ..core import ModuleInfo
+    rebound = rebound_module_state(eng)
+    if not rebound:
+        raise AnalysisError("no re-bound module-level state found at all (nodes.MAX_REPETITIONS was the confirmed instance)")
+    base = eng.cls("fandango.constraints.base", "GeneticBase")
+    n = 0
+    for c in [base] + base.all_subclasses():
+        m = c.methods.get("fitness")
+        if m is None or not any(isinstance(x, ast.Attribute) and self_attr(x) == "cache" for x in walk_local(m.node)):
+            continue
+        n += 1
+        seen: set[str] = set()
+        todo = [(m, c)]
+        bad = []
+        while todo:
+            f, owner = todo.pop()
+            if f.fq in seen or len(seen) > 60:
+                continue
+            seen.add(f.fq)
+            mod = eng.ix.modules[f.module]
+            tenv = eng.env(f)
+            for x in walk_local(f.node):
+                if isinstance(x, ast.Attribute) and isinstance(x.ctx, ast.Load):
+                    # self.<method / property>
+                    a = self_attr(x)
+                    if a is not None and owner is not None:
+                        g = owner.lookup(a)
+                        if g is not None:
+                            todo.append((g, owner))
+                    else:
+                        # <typed expression>.<method / property> of a repository class (self.repetition_node.max)
+                        for t in tenv.type_of(x.value):
+                            modn, cn = t.split(":")
+                            k = eng.ix.modules[modn].classes.get(cn) if modn in eng.ix.modules else None
+                            if k is not None and not k.fq.endswith(("DerivationTree", "TreeValue")):
+                                g = k.lookup(x.attr)
+                                if g is not None:
+                                    todo.append((g, k))
+                    r = eng.ix.resolve_dotted(mod, x.value)
+                    if isinstance(r, ModuleInfo) and (r.name, x.attr) in rebound:
+                        bad.append((f, x, f"{r.name}.{x.attr}", rebound[(r.name, x.attr)]))
+                elif isinstance(x, ast.Name) and isinstance(x.ctx, ast.Load):
+                    if (f.module, x.id) in rebound and x.id not in f.params():
+                        bad.append((f, x, f"{f.module}.{x.id}", rebound[(f.module, x.id)]))
+                    elif x.id in mod.imports:
+                        b_, at_ = mod.imports[x.id]
+                        if at_ is not None and (b_, at_) in rebound:
+                            bad.append((f, x, f"{b_}.{at_}", rebound[(b_, at_)]))
+        if not bad:
+            chk.ok(rule, m.fq, m.line, f"{c.name}.fitness (closure of {len(seen)} function(s)) reads no module-level state that is re-bound during a run")
+        for f, x, what, writer in bad[:1]:
+            chk.bad(rule, eng.relfile(f), x.lineno, m.fq, f"{c.name}.fitness reads `{what}` (in {f.qualname}), which {writer.split(':')[1]} re-binds during a run",
+                    "the memo is keyed by the tree and its bindings only: after the value changed (the adaptive tuner raises the repetition cap every generation) the memo still "
+                    "answers with the verdict computed under the old value - a tree's verdict depends on when it was first evaluated", keyparts=f"memo-reads-global|{c.name}|{what}")
+    if n < 5:
+        raise AnalysisError(f"only {n} memoised fitness() methods found")
